@@ -43,6 +43,7 @@ import concurrent.futures as cf
 import json
 import os
 import re
+import time
 
 import kit
 
@@ -151,10 +152,11 @@ def route_model(ctx):
             ("Route", "MC_Route_shared.cfg", own, False, False),
             ("Route", "MC_Route_sticky.cfg", own, False, False),
             ("RouteRefresh", "MC_RouteRefresh_fixed.cfg", None, True, True),
-            ("RouteRefresh", "MC_RouteRefresh_cachebefore.cfg", ["RoutedByTableInForce"], False, False),
-            ("RouteRefresh", "MC_RouteRefresh_window.cfg", ["WindowNeverReached"], False, False)]
+            ("RouteRefresh", "MC_RouteRefresh_cachebefore.cfg", ["RoutedByTableInForce"], False, False)]
+    # (quick: the reachability of W_RouteDuringRefresh is shown by the behaviours of the stratum, which all pass through it)
     if ctx.thorough:
-        jobs += [("Route", "MC_Route_fixed_3s.cfg", None, True, False),
+        jobs += [("RouteRefresh", "MC_RouteRefresh_window.cfg", ["WindowNeverReached"], False, False),
+                 ("Route", "MC_Route_fixed_3s.cfg", None, True, False),
                  ("Route", "MC_Route_fixed_3s_all.cfg", None, True, False),
                  ("Route", "MC_Route_update_r2.cfg", None, True, False),
                  ("Route", "MC_Route_shared_3s.cfg", own, False, False),
@@ -180,11 +182,11 @@ def route_model(ctx):
         raise kit.Inconclusive("window reachability run MC_Route_traps.cfg: %s" % (r.error or str(r.violated))[:500])
 
 
-def simulate(ctx, module, tag, cfgs, depth):
+def simulate(ctx, module, tag, cfgs, depth, seed=None):
     def one(c):
         cfg, num = c
-        r = ctx.tlc("redis", module, cfg, mode="sim", workers=1, sim_num=num, sim_depth=depth, seed=ctx.seed,
-                    deadlock=False, timeout=300)
+        r = ctx.tlc("redis", module, cfg, mode="sim", workers=1, sim_num=num, sim_depth=depth,
+                    seed=ctx.seed if seed is None else seed, deadlock=False, timeout=300)
         behs = [p for (t, p) in r.prints if t == tag]
         if r.timeout or r.violated or len(behs) < num // 2:
             raise kit.Inconclusive("behaviour generation failed (%s): %d behaviours, %s" % (cfg, len(behs), (r.error or str(r.violated))[:500]))
@@ -194,139 +196,244 @@ def simulate(ctx, module, tag, cfgs, depth):
         return list(ex.map(one, cfgs))
 
 
+def layout_of(b):
+    return "%dx%d" % (len(b["shards"]), b["nrep"])
+
+
+def segments_of(b):
+    """[(strategy, has a read)] per configured strategy of a RouteGen behaviour (split at its config events)."""
+    segs = [[b["strategy"], False]]
+    for ev in b["hist"]:
+        if ev["a"] == "config":
+            segs.append([ev["to"], False])
+        elif ev["a"] == "issue" and ev["kind"] == "read":
+            segs[-1][1] = True
+    return segs
+
+
+def is_foreign_stratum(b):
+    """Mandatory stratum 1: no strategy change, every request a read, decisions of different shards overlap."""
+    issues = [ev for ev in b["hist"] if ev["a"] == "issue"]
+    return (FOREIGN in b["windows"] and not any(ev["a"] == "config" for ev in b["hist"])
+            and issues and all(ev["kind"] == "read" for ev in issues))
+
+
+def transitions_of(b):
+    """Mandatory stratum 2: (from, to) of every run-time strategy change that is followed by a read."""
+    segs = segments_of(b)
+    return set((x[0], y[0]) for x, y in zip(segs, segs[1:]) if y[1])
+
+
+def missing_strata(behs, layouts, upd_layouts):
+    have1 = set((layout_of(b), b["strategy"]) for b in behs if is_foreign_stratum(b))
+    have2 = set((layout_of(b),) + t for b in behs for t in transitions_of(b))
+    m1 = [(l, s) for l in layouts for s in STRATEGIES if (l, s) not in have1]
+    m2 = [(l, x, y) for l in upd_layouts for x in STRATEGIES for y in STRATEGIES if x != y and (l, x, y) not in have2]
+    return m1, m2
+
+
 def route_behaviours(ctx):
-    """RouteGen behaviours: free simulation + the mandatory strata per layout (foreign reads; strategy changes)."""
+    """RouteGen behaviours: free simulation + the mandatory strata per layout (foreign reads; strategy changes).  The
+    strata are emitted by construction (ACTION_CONSTRAINTs of the Strata_* configurations); what a seed still misses
+    (a strategy never drawn, a transition without a read behind it) is generated again with other seeds."""
     if ctx.thorough:
         cfgs = [("Gen_Route_2x2.cfg", 600), ("Strata_Route_2x2.cfg", 60), ("Gen_Route_3x1.cfg", 600), ("Strata_Route_3x1.cfg", 60),
                 ("Gen_Route_2x1.cfg", 600), ("Strata_Route_2x1.cfg", 60), ("Gen_Route_2x0.cfg", 300), ("Strata_Route_2x0.cfg", 60),
                 ("Gen_RouteUpd_2x2.cfg", 300), ("Strata_RouteUpd_2x2.cfg", 200), ("Gen_RouteUpd_3x1.cfg", 200), ("Strata_RouteUpd_3x1.cfg", 150),
                 ("Gen_RouteUpd_2x1.cfg", 200), ("Strata_RouteUpd_2x1.cfg", 150)]
     else:
-        cfgs = [("Gen_Route_2x2.cfg", 200), ("Strata_Route_2x2.cfg", 60), ("Gen_Route_3x1.cfg", 100), ("Strata_Route_3x1.cfg", 60),
+        cfgs = [("Gen_Route_2x2.cfg", 200), ("Strata_Route_2x2.cfg", 60), ("Strata_Route_3x1.cfg", 60),
                 ("Strata_Route_2x0.cfg", 60), ("Gen_RouteUpd_2x2.cfg", 40), ("Strata_RouteUpd_2x2.cfg", 120)]
     out = []
     for cfg, behs in simulate(ctx, "RouteGen", "BEH", cfgs, 80):
         out.extend(behs)
     layouts = sorted(set(re.search(r"_Route_(\dx\d)\.cfg", c).group(1) for c, _ in cfgs if "_Route_" in c))
     upd_layouts = sorted(set(re.search(r"_RouteUpd_(\dx\d)\.cfg", c).group(1) for c, _ in cfgs if "_RouteUpd_" in c))
+    for attempt in (1, 2, 3):
+        m1, m2 = missing_strata(out, layouts, upd_layouts)
+        if not m1 and not m2:
+            break
+        again = [("Strata_Route_%s.cfg" % l, 60) for l in sorted(set(x[0] for x in m1))] + \
+                [("Strata_RouteUpd_%s.cfg" % l, 150) for l in sorted(set(x[0] for x in m2))]
+        kit.log("[gen] strata missing after seed %s: %s %s; generating again (%d)" % (ctx.seed, m1, m2, attempt))
+        for cfg, behs in simulate(ctx, "RouteGen", "BEH", again, 80, seed=ctx.seed + 7919 * attempt):
+            out.extend(behs)
+    m1, m2 = missing_strata(out, layouts, upd_layouts)
+    if m1 or m2:
+        raise kit.Inconclusive("behaviour generation: mandatory strata not emitted after 3 more seeds: %s %s" % (m1, m2))
     return out, layouts, upd_layouts
 
 
 def refresh_behaviours(ctx):
     cfgs = [("Strata_RouteRefresh.cfg", 120 if ctx.thorough else 40), ("Gen_RouteRefresh.cfg", 150 if ctx.thorough else 30)]
     seen, out = set(), []
-    for cfg, behs in simulate(ctx, "RouteRefreshGen", "RBEH", cfgs, 40):
-        for b in behs:
-            k = json.dumps(b, sort_keys=True)
-            if k not in seen:
-                seen.add(k)
-                out.append(b)
+
+    def add(pairs):
+        for cfg, behs in pairs:
+            for b in behs:
+                k = json.dumps(b, sort_keys=True)
+                if k not in seen:
+                    seen.add(k)
+                    out.append(b)
+
+    def missing():
+        return [s for s in ("BOTH", "REPLICA")
+                if len([b for b in out if b["strategy"] == s and "W_RouteDuringRefresh" in b["windows"]]) < 2]
+
+    add(simulate(ctx, "RouteRefreshGen", "RBEH", cfgs, 40))
+    for attempt in (1, 2, 3):
+        if not missing():
+            break
+        kit.log("[gen] refresh stratum missing for %s; generating again (%d)" % (missing(), attempt))
+        add(simulate(ctx, "RouteRefreshGen", "RBEH", cfgs[:1], 40, seed=ctx.seed + 7919 * attempt))
+    if missing():
+        raise kit.Inconclusive("behaviour generation: reads during a refresh not emitted for %s" % missing())
     return out
 
 
 # --------------------------------------------------------------------------- replays
 
+def over_budget(ctx):
+    """Re-runs of incomplete items are bounded by attempts and by wall clock."""
+    return time.time() - ctx.t0 > (1800 if ctx.thorough else 150)
+
+
 def concurrent_sessions(ctx, vfile, generated):
     behs, layouts, upd_layouts = generated
-    bfile = os.path.join(ctx.work, "route-behaviours.ndjson")
-    kit.write_ndjson(bfile, behs)
-    cfile = os.path.join(ctx.work, "concurrent.ndjson")
-    args = ["-in", bfile, "-cmds", vfile]
-    args += ["-burst", "400", "-fan", "4", "-heavy", "40"] if ctx.thorough else ["-burst", "100", "-fan", "4", "-heavy", "36"]
-    results, crashes = drive(ctx, "c14-concurrent", args, cfile, timeout=1500)
-    unconfirmed = judge_crashes(ctx, "c14-concurrent", crashes)
+    base_args = ["-cmds", vfile] + (["-burst", "400", "-fan", "4", "-heavy", "40"] if ctx.thorough
+                                    else ["-burst", "100", "-fan", "4", "-heavy", "36"])
     stratum = {}      # (layout, strategy) -> commands that arrived in complete runs of the mandatory stratum
     transitions = {}  # (layout, from, to) -> read arrivals judged strictly after the update
-    errs = []
-    for res in results:
-        segs = res.get("segments") or []
-        mode = "concurrent-sessions" if res["concurrent"] else "sequential-sessions"
-        if segs:
-            progs = ["%s[%s]" % (sg["strategy"], " || ".join(sorted(",".join("%s:%s" % (q["sh"], q["kind"]) for q in p) for p in sg["sessions"].values())))
-                     for sg in segs]
-            ctx.case(key=["route-upd", res["layout"], mode, progs, [bool(sg.get("updateInFlight")) for sg in segs]], nontrivial=True, n=res["sent"])
-            what = "layout %s, run-time strategy changes %s (%d connections, %d commands, windows %s)" % (
-                res["layout"], " -> ".join(progs), res["conns"], res["sent"], res.get("windows") or [])
-        else:
-            progs = sorted(",".join("%s:%s" % (q["sh"], q["kind"]) for q in p) for p in res["sessions"].values())
-            ctx.case(key=["route", res["layout"], res["strategy"], mode, progs], nontrivial=True, n=res["sent"])
-            what = "layout %s, strategy %s, sessions %s (%d connections, %d commands, windows %s)" % (
-                res["layout"], res["strategy"], " || ".join(progs), res["conns"], res["sent"], res.get("windows") or [])
-        classes = {}
-        for b in res.get("bad") or []:
-            where = mode if b.get("phase", "steady") == "steady" else b["phase"]
-            classes.setdefault((b["class"], where), b["detail"])
-        for (cls, where), detail in sorted(classes.items()):
-            ctx.violation("%s/%s" % (cls, where), "%s: %d arrivals outside the allowed nodes, e.g. %s; moved counter +%d" % (
-                what, res["badCount"], detail, res.get("moved", 0)), res)
-        for b in res.get("badReplies") or []:
-            cls, _, detail = b.partition(": ")
-            ctx.violation("%s/%s" % (cls, mode), "%s: %s" % (what, detail), res)
-        if res.get("err"):
-            errs.append("%s: %s" % (what, res["err"]))
-        elif not res["badCount"] and not res.get("badReplies"):
-            ctx.cov["traces_validated_against_impl"] += res.get("behaviours", 1)
-        complete = not res.get("err") and res["replies"] == res["sent"]
-        if not segs and res["concurrent"] and FOREIGN in (res.get("windows") or []) and complete \
-                and all(q["kind"] == "read" for p in res["sessions"].values() for q in p):
-            k = (res["layout"], res["strategy"])
-            stratum[k] = stratum.get(k, 0) + res["arrivals"]
-        if segs and complete:
-            for a, b in zip(segs, segs[1:]):
-                if any(q["kind"] == "read" for p in b["sessions"].values() for q in p):
-                    k = (res["layout"], a["strategy"], b["strategy"])
-                    transitions[k] = transitions.get(k, 0) + b.get("arrivals", 0)
-        if len(ctx.cov["samples"]) < 6 and (FOREIGN in (res.get("windows") or []) or segs):
-            ctx.sample({k: res.get(k) for k in ("layout", "strategy", "sessions", "segments", "windows", "conns", "sent", "arrivals", "perNode")})
-    if unconfirmed:
-        raise kit.Inconclusive("c14-concurrent: the driver died in %s (%s) but not when the item was re-run alone" % (
-            unconfirmed[0]["what"], unconfirmed[0]["panic"]))
-    if len(errs) > max(2, len(results) // 10):
-        raise kit.Inconclusive("c14-concurrent: %d of %d runs incomplete, e.g. %s" % (len(errs), len(results), errs[0]))
-    for e in errs:
+    state = {"errs": [], "unconfirmed": [], "results": 0}
+
+    def missing():
+        # every command that is sent arrives at least once, so a complete run reaches these counts by construction
+        m1 = [(l, s) for l in layouts for s in STRATEGIES if stratum.get((l, s), 0) < 4000]
+        m2 = [(l, a, b) for l in upd_layouts for a in STRATEGIES for b in STRATEGIES if a != b and transitions.get((l, a, b), 0) < 50]
+        return m1, m2
+
+    def one_pass(attempt, subset):
+        """Runs the behaviours `subset` (indices into behs); returns the indices whose run was incomplete."""
+        bfile = os.path.join(ctx.work, "route-behaviours.%d.ndjson" % attempt)
+        kit.write_ndjson(bfile, [behs[i] for i in subset])
+        cfile = os.path.join(ctx.work, "concurrent.%d.ndjson" % attempt)
+        results, crashes = drive(ctx, "c14-concurrent", ["-in", bfile] + base_args, cfile, timeout=1500)
+        state["unconfirmed"] += judge_crashes(ctx, "c14-concurrent", crashes)
+        state["results"] += len(results)
+        incomplete = []
+        for res in results:
+            segs = res.get("segments") or []
+            mode = "concurrent-sessions" if res["concurrent"] else "sequential-sessions"
+            if segs:
+                progs = ["%s[%s]" % (sg["strategy"], " || ".join(sorted(",".join("%s:%s" % (q["sh"], q["kind"]) for q in p) for p in sg["sessions"].values())))
+                         for sg in segs]
+                ctx.case(key=["route-upd", res["layout"], mode, progs, [bool(sg.get("updateInFlight")) for sg in segs]], nontrivial=True, n=res["sent"])
+                what = "layout %s, run-time strategy changes %s (%d connections, %d commands, windows %s)" % (
+                    res["layout"], " -> ".join(progs), res["conns"], res["sent"], res.get("windows") or [])
+            else:
+                progs = sorted(",".join("%s:%s" % (q["sh"], q["kind"]) for q in p) for p in res["sessions"].values())
+                ctx.case(key=["route", res["layout"], res["strategy"], mode, progs], nontrivial=True, n=res["sent"])
+                what = "layout %s, strategy %s, sessions %s (%d connections, %d commands, windows %s)" % (
+                    res["layout"], res["strategy"], " || ".join(progs), res["conns"], res["sent"], res.get("windows") or [])
+            classes = {}
+            for b in res.get("bad") or []:
+                where = mode if b.get("phase", "steady") == "steady" else b["phase"]
+                classes.setdefault((b["class"], where), b["detail"])
+            for (cls, where), detail in sorted(classes.items()):
+                ctx.violation("%s/%s" % (cls, where), "%s: %d arrivals outside the allowed nodes, e.g. %s; moved counter +%d" % (
+                    what, res["badCount"], detail, res.get("moved", 0)), res)
+            for b in res.get("badReplies") or []:
+                cls, _, detail = b.partition(": ")
+                ctx.violation("%s/%s" % (cls, mode), "%s: %s" % (what, detail), res)
+            complete = not res.get("err") and res["replies"] == res["sent"]
+            if not complete:
+                incomplete.append((subset[res["beh"] - 1], "%s: %s" % (what, res.get("err") or "replies %d of %d" % (res["replies"], res["sent"]))))
+            elif not res["badCount"] and not res.get("badReplies"):
+                ctx.cov["traces_validated_against_impl"] += res.get("behaviours", 1)
+            if not segs and res["concurrent"] and FOREIGN in (res.get("windows") or []) and complete \
+                    and all(q["kind"] == "read" for p in res["sessions"].values() for q in p):
+                k = (res["layout"], res["strategy"])
+                stratum[k] = stratum.get(k, 0) + res["arrivals"]
+            if segs and complete:
+                for x, y in zip(segs, segs[1:]):
+                    if any(q["kind"] == "read" for p in y["sessions"].values() for q in p):
+                        k = (res["layout"], x["strategy"], y["strategy"])
+                        transitions[k] = transitions.get(k, 0) + y.get("arrivals", 0)
+            if len(ctx.cov["samples"]) < 6 and (FOREIGN in (res.get("windows") or []) or segs):
+                ctx.sample({k: res.get(k) for k in ("layout", "strategy", "sessions", "segments", "windows", "conns", "sent", "arrivals", "perNode")})
+        return incomplete
+
+    incomplete = one_pass(1, list(range(len(behs))))
+    for attempt in (2, 3):
+        m1, m2 = missing()
+        if not (incomplete or m1 or m2) or state["unconfirmed"] or over_budget(ctx):
+            break
+        # run again: what was incomplete, and behaviours of the strata that did not reach their counts
+        subset = sorted(set(i for i, _ in incomplete)
+                        | set(i for i, b in enumerate(behs) if is_foreign_stratum(b) and (layout_of(b), b["strategy"]) in m1)
+                        | set(i for i, b in enumerate(behs) if any((layout_of(b),) + t in m2 for t in transitions_of(b))))
+        kit.log("[retry %d] c14-concurrent: %d incomplete runs, strata below their counts: %s %s -> %d behaviours again" % (
+            attempt, len(incomplete), m1, m2, len(subset)))
+        incomplete = one_pass(attempt, subset)
+    if state["unconfirmed"]:
+        u = state["unconfirmed"][0]
+        raise kit.Inconclusive("c14-concurrent: the driver died in %s (%s) but not when the item was re-run alone" % (u["what"], u["panic"]))
+    if len(incomplete) > max(2, state["results"] // 10):
+        raise kit.Inconclusive("c14-concurrent: %d runs still incomplete after the re-runs, e.g. %s" % (len(incomplete), incomplete[0][1]))
+    for _, e in incomplete:
         ctx.notes.append("incomplete run (not judged as a whole, arrivals judged): " + e)
     # the mandatory strata must have been exercised, with real traffic: concurrent reads of keys of different shards for
-    # every strategy on every layout (including the layout whose masters have no replica) ...
-    missing = ["%s/%s" % (l, s) for l in layouts for s in STRATEGIES if stratum.get((l, s), 0) < 4000]
-    if missing:
-        raise kit.Inconclusive("mandatory stratum (concurrent reads of keys of different shards) not exercised: %s" % missing)
-    # ... and reads after every run-time change of the strategy
-    missing = ["%s:%s->%s" % (l, a, b) for l in upd_layouts for a in STRATEGIES for b in STRATEGIES
-               if a != b and transitions.get((l, a, b), 0) < 100]
-    if missing:
-        raise kit.Inconclusive("mandatory stratum (reads after a run-time change of the read strategy) not exercised: %s" % missing)
+    # every strategy on every layout (including the layout whose masters have no replica), and reads after every
+    # run-time change of the strategy
+    m1, m2 = missing()
+    if m1 or m2:
+        raise kit.Inconclusive("mandatory strata not exercised after %s: foreign concurrent reads %s, reads after a strategy change %s" % (
+            "3 attempts" if not over_budget(ctx) else "the wall-clock budget", ["%s/%s" % x for x in m1], ["%s:%s->%s" % x for x in m2]))
 
 
 def refresh_replay(ctx, behs):
-    bfile = os.path.join(ctx.work, "refresh-behaviours.ndjson")
-    kit.write_ndjson(bfile, behs)
-    rfile = os.path.join(ctx.work, "refresh.ndjson")
-    results, crashes = drive(ctx, "c14-refresh", ["-in", bfile], rfile, n_items=len(behs), timeout=900)
-    unconfirmed = judge_crashes(ctx, "c14-refresh", crashes)
-    errs, window = [], {}
-    for res in results:
-        ctx.case(key=["refresh", res["strategy"], res["actions"]], nontrivial=True, n=res["reads"])
-        bad = [(st, b) for st in res["steps"] for b in st.get("bad") or []]
-        if bad:
-            st, b = bad[0]
-            where = "read-during-refresh" if "W_RouteDuringRefresh" in res["windows"] else "across-refresh"
-            ctx.violation("read-to-foreign-replica/%s" % where, "strategy %s, steps %s: step %d (%s): %s" % (
-                res["strategy"], " ".join(res["actions"]), st["step"],
-                "routed after the refresh had completed" if st.get("afterRefresh") else "routed before any refresh had completed", b), res)
-        if res.get("err"):
-            errs.append("%s %s: %s" % (res["strategy"], " ".join(res["actions"]), res["err"]))
-        elif not bad:
-            ctx.cov["traces_validated_against_impl"] += 1
-            if "W_RouteDuringRefresh" in res["windows"]:
-                window[res["strategy"]] = window.get(res["strategy"], 0) + 1
-        if len(ctx.cov["samples"]) < 8 and "W_RouteDuringRefresh" in res["windows"]:
-            ctx.sample({k: res[k] for k in ("strategy", "actions", "steps")})
-    if unconfirmed:
-        raise kit.Inconclusive("c14-refresh: the driver died in %s (%s) but not when the item was re-run alone" % (
-            unconfirmed[0]["what"], unconfirmed[0]["panic"]))
-    if len(errs) > max(1, len(results) // 10):
-        raise kit.Inconclusive("c14-refresh: %d of %d replays incomplete, e.g. %s" % (len(errs), len(results), errs[0]))
-    for e in errs:
+    state = {"unconfirmed": [], "results": 0}
+    window = {}
+
+    def one_pass(attempt, subset):
+        bfile = os.path.join(ctx.work, "refresh-behaviours.%d.ndjson" % attempt)
+        kit.write_ndjson(bfile, [behs[i] for i in subset])
+        rfile = os.path.join(ctx.work, "refresh.%d.ndjson" % attempt)
+        results, crashes = drive(ctx, "c14-refresh", ["-in", bfile], rfile, n_items=len(subset), timeout=900)
+        state["unconfirmed"] += judge_crashes(ctx, "c14-refresh", crashes)
+        state["results"] += len(results)
+        incomplete = []
+        for res in results:
+            ctx.case(key=["refresh", res["strategy"], res["actions"]], nontrivial=True, n=res["reads"])
+            bad = [(st, b) for st in res["steps"] for b in st.get("bad") or []]
+            if bad:
+                st, b = bad[0]
+                where = "read-during-refresh" if "W_RouteDuringRefresh" in res["windows"] else "across-refresh"
+                ctx.violation("read-to-foreign-replica/%s" % where, "strategy %s, steps %s: step %d (%s): %s" % (
+                    res["strategy"], " ".join(res["actions"]), st["step"],
+                    "routed after the refresh had completed" if st.get("afterRefresh") else "routed before any refresh had completed", b), res)
+            if res.get("err"):
+                incomplete.append((subset[res["id"] - 1], "%s %s: %s" % (res["strategy"], " ".join(res["actions"]), res["err"])))
+            elif not bad:
+                ctx.cov["traces_validated_against_impl"] += 1
+                if "W_RouteDuringRefresh" in res["windows"]:
+                    window[res["strategy"]] = window.get(res["strategy"], 0) + 1
+            if len(ctx.cov["samples"]) < 8 and "W_RouteDuringRefresh" in res["windows"]:
+                ctx.sample({k: res[k] for k in ("strategy", "actions", "steps")})
+        return incomplete
+
+    incomplete = one_pass(1, list(range(len(behs))))
+    for attempt in (2, 3):
+        if not incomplete or state["unconfirmed"] or over_budget(ctx):
+            break
+        kit.log("[retry %d] c14-refresh: %d incomplete replays again" % (attempt, len(incomplete)))
+        incomplete = one_pass(attempt, sorted(set(i for i, _ in incomplete)))
+    if state["unconfirmed"]:
+        u = state["unconfirmed"][0]
+        raise kit.Inconclusive("c14-refresh: the driver died in %s (%s) but not when the item was re-run alone" % (u["what"], u["panic"]))
+    if len(incomplete) > max(1, state["results"] // 10):
+        raise kit.Inconclusive("c14-refresh: %d replays still incomplete after the re-runs, e.g. %s" % (len(incomplete), incomplete[0][1]))
+    for _, e in incomplete:
         ctx.notes.append("incomplete refresh replay: " + e)
     if not ctx.violations:
         missing = [s for s in ("BOTH", "REPLICA") if window.get(s, 0) < 2]
